@@ -10,6 +10,7 @@ A session spec is a dict:
   ops        list of op dicts, see run_op()
 """
 import io
+import logging
 import os
 import random
 import shutil
@@ -225,8 +226,32 @@ def prepare_ops(spec, dev, tmp):
     return args
 
 
+class _FormatAll(logging.Handler):
+    """Formats every record (so that lazily formatted arguments are really evaluated) and throws the text away."""
+
+    def emit(self, record):
+        record.getMessage()
+
+
+_FORMAT_ALL = _FormatAll()
+
+
 def run(spec, mode='sync', rec=None, chooser=None, keep_session=False, **core_kw):
     """Execute the session spec against a fresh simulator; returns RunResult."""
+    if spec.get('debug_log'):
+        # the application has switched the library's loggers to DEBUG
+        lg = logging.getLogger('adb_shell')
+        old = lg.level
+        lg.setLevel(logging.DEBUG)
+        lg.addHandler(_FORMAT_ALL)
+        old_prop = lg.propagate
+        lg.propagate = False
+        try:
+            return run({k: v for k, v in spec.items() if k != 'debug_log'}, mode, rec, chooser, keep_session, **core_kw)
+        finally:
+            lg.setLevel(old)
+            lg.removeHandler(_FORMAT_ALL)
+            lg.propagate = old_prop
     seed = spec.get('seed', 0)
     rr = RunResult()
     dev = build_device(spec, rec, chooser)
@@ -237,6 +262,8 @@ def run(spec, mode='sync', rec=None, chooser=None, keep_session=False, **core_kw
         kw = dict(core_kw)
         if 'frag' not in kw and spec.get('frag', 'whole') != 'whole':
             kw['frag'] = frag_fn(spec['frag'], seed)
+        if 'rtype' not in kw and spec.get('rtype'):
+            kw['rtype'] = spec['rtype']
         if 'wcap' not in kw and spec.get('wcap') is not None:
             w = spec['wcap']
             r = random.Random(seed ^ 0xc2b2ae35)
@@ -553,6 +580,8 @@ def gen_session(rng, idx, big=False, adversarial=False, ops_max=6, allow=('shell
             ops[j_]['refuse'] = True                 # the device refuses this OPEN with CLSE(0, id)
             ops[j_]['read_timeout_s'] = 1.0
         spec['reorder'] = rng.random() < 0.5
+        spec['rtype'] = rng.choice([None, None, 'bytearray', 'memoryview', 'array'])     # container type of what bulk_read returns
+        spec['debug_log'] = rng.random() < 0.3                                           # the application runs the library's loggers at DEBUG
         for op in ops:
             if op['api'] in ('shell', 'exec_out', 'streaming_shell') and rng.random() < 0.3 and op['chunks']:
                 op['chunks'].insert(rng.randrange(len(op['chunks']) + 1), '')          # a zero-length WRITE
